@@ -255,6 +255,11 @@ func propC03(c *Check) {
 			c.Violated("R2", "receipt."+f+" @ "+FuncKey(vd), p.Pos(vd.Pos()), "receipt field is "+got[f]+", expected "+want[f]+" reason=not-established")
 		}
 	}
+	// the amount may also be `value - tax` unconditionally, with tax = 0 where no tax applies
+	unconditional := got["Amount"] == "("+val+" - "+want["Tax"]+")"
+	if unconditional {
+		want["Amount"] = got["Amount"]
+	}
 	for _, f := range []string{"Amount", "Tax"} {
 		if got[f] == want[f] {
 			c.Held("R5", "receipt."+f+" @ "+FuncKey(vd), p.Pos(vd.Pos()), got[f])
@@ -274,6 +279,12 @@ func propC03(c *Check) {
 					if x.r.E(v) == "("+val+" - "+taxInner+")" {
 						foundSub = true
 						c.requireFactCtx(x, "R5", "tax-needs-value>10000", lit("(10000 < "+val+")"), instrSet([]ssa.Instruction{in}), "tax subtraction")
+					}
+					// unconditional subtraction of a tax that is 0 unless value > 10000: the non-zero tax is computed
+					// only under that guard
+					if unconditional && x.r.E(v) == taxCalc {
+						foundSub = true
+						c.requireFactCtx(x, "R5", "tax-needs-value>10000", lit("(10000 < "+val+")"), instrSet([]ssa.Instruction{in}), "tax computation")
 					}
 				case *ssa.Phi:
 					if x.r.E(v) != taxInner {
